@@ -16,6 +16,7 @@ func init() {
 			{ID: "C20-R2", Doc: "instance types registered, exported, additive merge; Merge/Reset cover every metric", Run: c20r2},
 			{ID: "C20-R3", Doc: "scope plumbing in executors and Result", Run: c20r3},
 			{ID: "C20-R4", Doc: "a metric instance is published by a compare-and-swap whose outcome decides which instance is used", Run: c20r4},
+			{ID: "C20-R5", Doc: "a result's counters are the sum over every task behind it: the merge in (*Result).Scope is unconditional", Run: c20r5},
 		},
 	})
 }
@@ -585,8 +586,17 @@ func c20r3(c *RC) {
 		var walk func(f *Func)
 		walk = func(f *Func) {
 			for _, k := range callsIn(f.Body) {
-				if f.Pkg.CalleeName(k) == "metrics.(*Scope).Merge" && len(k.Args) == 1 && canon(f, k.Args[0]) == "&$l0.Scope" && canon(f, k.Fun) == "$recv.scope.Merge" {
-					merge = true
+				if f.Pkg.CalleeName(k) == "metrics.(*Scope).Merge" && len(k.Args) == 1 && canon(f, k.Fun) == "$recv.scope.Merge" {
+					arg := ast.Unparen(k.Args[0])
+					// a single-definition local stands for its definition
+					if id, ok := arg.(*ast.Ident); ok {
+						if d, ok := newLinEnv(pr, f).defs[f.Pkg.Info.Uses[id]]; ok {
+							arg = ast.Unparen(d)
+						}
+					}
+					if canon(f, arg) == "&$l0.Scope" {
+						merge = true
+					}
 				}
 			}
 			for _, l := range f.Lits {
